@@ -34,7 +34,9 @@ func (s *stack) size() int {
 }
 
 // depth-first search
-func (s *stack) dfs(current *Node) {
+// It reports whether current could be placed under a node of the stack.
+// false means that no node one level up exists (the row is nested too deeply).
+func (s *stack) dfs(current *Node) bool {
 	size := s.size()
 	for range size {
 		parent := s.pop()
@@ -45,12 +47,13 @@ func (s *stack) dfs(current *Node) {
 		// for same name on the same hierarchy
 		if child := parent.findChildByText(current.name); child != nil {
 			s.push(parent).push(child)
-			return
+			return true
 		}
 
 		parent.addChild(current)
 		current.setParent(parent)
 		s.push(parent).push(current)
-		return
+		return true
 	}
+	return false
 }
